@@ -362,8 +362,19 @@ def check(model, rep, tier):
     raise core.AnalysisError('block live-out / live-in annotators not identified')
 
   vis = ta.methods['visit']
-  ok = pat.has(vis.node, 'anno.setanno(%s, anno.Static.LIVE_VARS_IN, '
-               'frozenset(self.current_analyzer.in_[_C_]))' % vis.params()[0])
+  vp_ = vis.params()[0]
+  ok = False
+  for c_ in ast.walk(vis.node):
+    if isinstance(c_, ast.Call) and core.dotted(c_.func) == 'anno.setanno' and \
+        len(c_.args) == 3 and core.norm(c_.args[0]) == vp_ and \
+        core.norm(c_.args[1]) == 'anno.Static.LIVE_VARS_IN':
+      # the live-in of the statement's own CFG node (through locals)
+      v_ = tpl.xnorm(vis, c_.args[2], c_)
+      ok = ok or v_ in (
+          'frozenset(self.current_analyzer.in_[self.current_analyzer.graph.index[%s]])' % vp_,
+          'self.current_analyzer.in_[self.current_analyzer.graph.index[%s]]' % vp_,
+          'frozenset(self.current_analyzer.in_[self.current_analyzer.graph.index.get(%s)])'
+          % vp_)
   rep.check(ok, 'LV-BLOCK', '%s:statement-live-in' % vis.site,
             'every statement with a CFG node gets its live-in set',
             line=vis.node.lineno)
